@@ -1,3 +1,4 @@
+pub mod der_reader;
 pub mod der_writer;
 pub mod medium;
 pub mod rng;
